@@ -41,7 +41,9 @@ def gen_exact(rng, n, tier):
         n1 = rng.randint(1, 7)
         n2 = rng.randint(1, 7)
         vals = rng.choice([[0, 1], [0, 1, 2, 3], [0, 1, 2, 5, 9]])
-        out.append({'x1': [[rng.choice(vals), 0] for _ in range(n1)], 'x2': [[rng.choice(vals), 0] for _ in range(n2)], 'p': rng.choice([1, 2, INF])})
+        dim = rng.choice([2, 2, 1])                                  # dim 1: the altitude column carries the signal, the abscissa is noise for the distance
+        zv = (lambda: rng.choice(vals)) if dim == 1 else (lambda: rng.choice([0, 0, 3]))
+        out.append({'x1': [[rng.choice(vals), 0, zv()] for _ in range(n1)], 'x2': [[rng.choice(vals), 0, zv()] for _ in range(n2)], 'p': rng.choice([1, 2, INF]), 'dim': dim})
     return out
 
 
@@ -50,31 +52,41 @@ def gen_planar(rng, n, tier):
     for _ in range(n):
         n1 = rng.randint(1, 6)
         n2 = rng.randint(1, 6)
-        pt = lambda: [rng.randint(-30, 30) / 4.0, rng.randint(-30, 30) / 4.0]
-        out.append({'x1': [pt() for _ in range(n1)], 'x2': [pt() for _ in range(n2)], 'p': rng.choice([1, 2, INF])})
+        pt = lambda: [rng.randint(-30, 30) / 4.0, rng.randint(-30, 30) / 4.0, rng.choice([0.0, 0.0, rng.randint(-20, 20) / 4.0])]
+        out.append({'x1': [pt() for _ in range(n1)], 'x2': [pt() for _ in range(n2)], 'p': rng.choice([1, 2, INF]), 'dim': rng.choice([2, 2, 1, 3])})
     return out
 
 
 def mk(pts):
     from tracklib.core import ObsTime, ENUCoords, Obs, Track
-    return Track([Obs(ENUCoords(x, y, 0), ObsTime.readUnixTime(i)) for i, (x, y) in enumerate(pts)])
+    return Track([Obs(ENUCoords(p[0], p[1], p[2] if len(p) > 2 else 0), ObsTime.readUnixTime(i)) for i, p in enumerate(pts)])
+
+
+def dist_dim(a, b, dim):
+    """the pointwise distance of the comparison functions: dim 1 = altitude difference, 2 = planimetric, 3 = spatial"""
+    az = a[2] if len(a) > 2 else 0.0; bz = b[2] if len(b) > 2 else 0.0
+    if dim == 1:
+        return abs(az - bz)
+    if dim == 2:
+        return math.hypot(a[0] - b[0], a[1] - b[1])
+    return math.sqrt((a[0] - b[0]) ** 2 + (a[1] - b[1]) ** 2 + (az - bz) ** 2)
 
 
 def run_impl(case):
     import sys, tracklib.algo.comparison
     cmp = sys.modules['tracklib.algo.comparison']
     t1, t2 = mk(case['x1']), mk(case['x2'])
-    p = case['p']
+    p = case['p']; dim = case.get('dim', 2)
     if p == INF:
-        m = cmp.match(t1, t2, mode=cmp.MODE_MATCHING_FRECHET, verbose=False)
-        fre = cmp.compare(t1, t2, mode=cmp.MODE_COMPARISON_FRECHET, verbose=False)
+        m = cmp.match(t1, t2, mode=cmp.MODE_MATCHING_FRECHET, dim=dim, verbose=False)
+        fre = cmp.compare(t1, t2, mode=cmp.MODE_COMPARISON_FRECHET, dim=dim, verbose=False)
     else:
-        m = cmp.match(t1, t2, mode=cmp.MODE_MATCHING_DTW, p=p, verbose=False)
+        m = cmp.match(t1, t2, mode=cmp.MODE_MATCHING_DTW, p=p, dim=dim, verbose=False)
         fre = None
-    f = cmp.match(t1, t2, mode=cmp.MODE_MATCHING_FDTW, p=p, verbose=False)
-    s = cmp.match(t2, t1, mode=cmp.MODE_MATCHING_FRECHET if p == INF else cmp.MODE_MATCHING_DTW, p=p, verbose=False)
+    f = cmp.match(t1, t2, mode=cmp.MODE_MATCHING_FDTW, p=p, dim=dim, verbose=False)
+    s = cmp.match(t2, t1, mode=cmp.MODE_MATCHING_FRECHET if p == INF else cmp.MODE_MATCHING_DTW, p=p, dim=dim, verbose=False)
     pairs = [[int(i) for i in m['pair', j]] for j in range(len(case['x1']))]
-    D = [[cmp._distance(t2.getObs(i).position, t1.getObs(j).position, 2) for j in range(t1.size())] for i in range(t2.size())]
+    D = [[dist_dim(case['x2'][i], case['x1'][j], dim) for j in range(t1.size())] for i in range(t2.size())]      # the pointwise distances, computed here (not by the implementation)
     return {'score': float(m.score), 'fscore': float(f.score), 'sscore': float(s.score), 'pairs': pairs, 'nb': int(m.nb_links), 'D': D,
             'frechet': None if fre is None else float(fre), 'src1': [o.position.getX() for o in t1], 'fpairs': [[int(i) for i in f['pair', j]] for j in range(len(case['x1']))]}
 
@@ -101,7 +113,7 @@ def oracle_tol(tol):
             return 'match raised %s' % obs['exc']
         x1, x2, p = case['x1'], case['x2'], case['p']
         n1, n2 = len(x1), len(x2)
-        d = lambda i, j: math.hypot(x2[i][0] - x1[j][0], x2[i][1] - x1[j][1])
+        d = lambda i, j: dist_dim(x2[i], x1[j], case.get('dim', 2))
         acc = (lambda A, B: max(A, B)) if p == INF else (lambda A, B: A + B ** p)
         # minimum over all couplings: enumerate the three predecessors recursively (independent of the table layout of the code)
         @functools.lru_cache(None)
